@@ -47,7 +47,7 @@ ASSUMPTIONS = [
 
 
 def budget(tier):
-    return int(os.environ.get("VERIF_BUDGET", 0)) or {"quick": 1500, "thorough": 20000}[tier]
+    return int(os.environ.get("VERIF_BUDGET", 0)) or {"quick": 1500, "thorough": 12000}[tier]
 
 
 # ------------------------------------------------------------------ generation
